@@ -26,6 +26,11 @@ CLAIMS = {
         text="Machine-checked for every element type, every Boolean equality (no laws assumed) and every finite history: appends return the old length and a fresh token, storage only grows by suffixes so earlier tokens keep their values, fetch_or_append returns the first equal element's index or appends, length = initial + number of appending operations. The 25-line model is tied to sr/storage.rs by exhaustive histories up to length 4 over an irreflexive, asymmetric equality plus seeded long histories (also on f32 with NaNs), and the property is also evaluated directly on the implementation's answers.",
         note="Trusted: Lean kernel + standard axioms; hand model Rspirv/Model/Storage.lean and its differential tie (as good as its generators); Vec semantics; storage below 2^32 elements (u32 index).",
         ref="DESIGN.md §8 C19"),
+    "C15": dict(
+        technique="Lean 4 theorems (list algebra, valid for every module value over every instruction type) over traversal/assembly orders regenerated from constructs.rs and assemble.rs; differential `trav` channel on random module values",
+        text="Machine-checked for all dr::Module values (any combination of missing header/def/end/label and empty sections) and any instruction type: all-instructions traversal = global traversal ++ per-function traversals; mutable twins equal their read-only counterparts; assembly = header words ++ flatMap of per-instruction assembly over the traversal; explicit layout order. The chain orders are data read from the source by a strict translator on every run; a reordered, missing or duplicated field breaks the `orders_ok` obligation and the oracle then finds the one- or two-instruction witness module.",
+        note="Trusted: Lean kernel + standard axioms; translator traversals.py (every token of the iterator and assemble_into bodies); std iterator semantics; hand model Module.lean and its differential tie.",
+        ref="DESIGN.md §8 C15"),
 }
 
 
